@@ -25,15 +25,19 @@ from pywbem import (MOFCompiler, MOFWBEMConnection, MOFCompileError, MOFParseErr
 from pywbem._mof_compiler import BaseRepositoryConnection  # noqa: E402
 import pywbem._cim_constants as _K  # noqa: E402
 
-R = Run('MOF text families through the real PLY driver: string/char escapes (all \\c for printable c, hex escapes of '
-        '0..5 digits x terminators, pairs over a 13-piece alphabet) x 4 contexts; integer literals at type bounds in '
-        '4 bases x 8 types x 5 contexts + malformed numbers; 15 types x 14 initializer kinds x scalar/array x 4 '
-        'contexts; 45 pragma-namespace params + malformed pragmas; include graphs (self/mutual/chain depth<=3, missing, '
-        'directory, search-path cycles); 12 error kinds x 8 prefixes x 3 suffixes x string/file/include positions; '
-        'token drop/dup/swap/replace(30 substitutes) and every prefix truncation of a 7-snippet corpus; seeded random '
-        'token soup/text; scripted repository rejecting 8 operations x call 1/2/all x 26 status codes x fresh/recompile; '
-        'FakedWBEMConnection; a valid probe compile on the same MOFCompiler after failures (quick: sampled replace '
-        'mutations/random text)')
+R = Run('MOF text families through the real PLY driver: string/char16 escapes (every \\c for printable c, hex escapes of '
+        '0..5 digits x 6 terminators, all pairs over a 13-piece alphabet) x 4 contexts; integer literals at the bounds '
+        'of 8 types in 4 bases x 5 contexts + 23 malformed numbers + reals; 15 types x 19 initializer kinds x '
+        'scalar/array x 6 contexts; 45 pragma-namespace parameters + 36 malformed pragmas; include graphs '
+        '(self/mutual/3-cycle, chains of depth<=3 with the defect at each depth, missing file, directory, odd names) '
+        'and 22 search-path dependency set-ups incl. cyclic/wrong files; 15 error kinds x 10 prefixes x 3 suffixes '
+        'x string/file/include with the offending token at a known line/column; 66 hand-picked semantic errors; '
+        'token drop/dup/swap/replace (30 substitutes; quick: 3) and prefix truncation at every offset (quick: every '
+        '2nd) of a 7-snippet corpus, thorough also every single-character delete/insert; seeded random token '
+        'soup/skeletons/characters/splices (quick 1500, thorough 120000); a scripted repository rejecting 8 '
+        'operations x call 1/2/all x 26 status codes x fresh/recompile/forced; the mock WBEM server connected in 3 '
+        'ways; 19x19 pairs of failures followed by a valid file; after failures the same MOFCompiler must compile a '
+        'probe correctly and report a later error at the right place')
 
 DEBUG = bool(os.environ.get('C09_DEBUG'))
 QUICK = R.tier == 'quick'
@@ -748,6 +752,7 @@ def verify_probe(view, ns):
 
 
 _PROBE_SEEN = set()
+_BUDGET = {'probe_failures': 0, 'repro': 0}
 
 
 def probe(env, after, detail, force=False):
@@ -755,6 +760,8 @@ def probe(env, after, detail, force=False):
     at the right place (file None for a string)."""
     env.failures += 1
     if not force and after in _PROBE_SEEN and env.failures % 7:
+        return
+    if _BUDGET['probe_failures'] > 25:       # broken everywhere: already reported, keep the run time bounded
         return
     _PROBE_SEEN.add(after)
     env.quiet()
@@ -767,6 +774,7 @@ def probe(env, after, detail, force=False):
         why = verify_probe(env.view, ns)
     if why:
         R.violation('valid-MOF-fails-after-' + after, why=why, **detail)
+        _BUDGET['probe_failures'] += 1
         env.fresh()
         return
     kind, x = attempt(lambda: env.comp.compile_string(PROBE_BAD, new_ns()))
@@ -775,6 +783,7 @@ def probe(env, after, detail, force=False):
         R.violation('later-error-misreported-after-' + after,
                     observed='%s %r' % (kind, (getattr(x, 'lineno', None), getattr(x, 'column', None),
                                                getattr(x, 'file', None), str(x)[:80])), **detail)
+        _BUDGET['probe_failures'] += 1
         env.fresh()
 
 
@@ -829,7 +838,8 @@ def case(env, fam, key, text=None, ns=None, run=None, files=None, hints=(), expe
         return kind, x, ns
     vid = classify_escape(x, texts, hints)
     d2 = dict(detail, etype=type(x).__name__, emsg=str(x)[:200], raised_in=signature(x)[1])
-    if not vid.startswith('known:') and run is None:
+    if not vid.startswith('known:') and run is None and _BUDGET['repro'] < 25:
+        _BUDGET['repro'] += 1
         e2 = Env(env.kind, env.search_paths)
         k2, x2 = attempt(lambda: e2.comp.compile_string(text, ns))
         d2['reproduces_on_fresh_compiler'] = (k2 == 'esc' and type(x2) is type(x))
@@ -1719,13 +1729,17 @@ def f_sequences():
                 why = ('%s: %s' % (type(x).__name__, str(x)[:160])) if kind != 'ok' else verify_probe(env.view, ns)
                 if why:
                     R.violation('valid-file-fails-after-failures', why=why, after=[n1, n2], repo=kindname)
-                    env.fresh()
+                    _BUDGET['probe_failures'] += 1
+                    if _BUDGET['probe_failures'] < 25:
+                        env.fresh()
                 # and an error in a string afterwards names no file
                 kind, x = attempt(lambda: env.comp.compile_string(PROBE_BAD, new_ns()))
                 if kind != 'mce' or x.file is not None or x.lineno != 3:
                     R.violation('later-error-misreported-after-failures', after=[n1, n2], repo=kindname,
                                 observed='%s %r' % (kind, (getattr(x, 'lineno', None), getattr(x, 'file', None))))
-                    env.fresh()
+                    _BUDGET['probe_failures'] += 1
+                    if _BUDGET['probe_failures'] < 25:
+                        env.fresh()
 
 
 # ----------------------------------------------------------------------------------------------------------------
